@@ -31,6 +31,21 @@ CLAIMED["C05"] = ("model_checking",
     "Trusted: TLC, the edge/state dump, the replayer's projection, the Go race detector, inv/ret ordering under one mutex. Universe: 4 topics x 2 values quick, 7 x 2 thorough.",
     "DESIGN.md section 5 C05")
 
+CLAIMED["C01"] = ("exploration",
+    "TLA+ reference codec (MQTTCodec.tla, from the MQTT 3.1.1 text) evaluated by TLC: grid of packets with mandated wire images replayed on the library (Len/Encode/Decode/stream encoder); library encodings of random packets judged by TLC",
+    "Bounded-exhaustive over the stated grid: TLC enumerates every type, flag combination, boundary ids and sizes solved in TLA+ so that the remaining length crosses every "
+    "variable-length-integer boundary a type can reach (field lengths 0/1/65534/65535), and writes the wire image the standard mandates; the replayer checks Len(), Encode into exact "
+    "and larger dirty buffers, Decode, DetectPacket and the pooled stream encoder against it. Random well-formed packets encoded by the library are judged by TLC (Enc(p)=bytes, reference round trip).",
+    "Trusted: MQTTCodec.tla as the oracle (self-checked: Dec(Enc(p)) = p on every judged packet), TLC's evaluation, run-length expansion in the harness. The 268435455-byte vector only in thorough.",
+    "DESIGN.md section 5 C01")
+CLAIMED["C02"] = ("exploration",
+    "TLA+ reference decoder (MQTTCodec.tla Dec, extent-local by construction) evaluated by TLC as judge of decode results recorded from the library for enumerated headers, structure-aware mutations, random and fuzzed bytes",
+    "Every input (enumerated header space, mutations of every valid reference encoding, random bytes, large encodings at the 4-byte length boundary; fuzzing corpus in thorough) is presented raw, "
+    "embedded before two tails and through packet.Decoder; each presentation is judged by TLC against the reference decoder: verdict, every field, consumed count. Panics, consumed>supplied, "
+    "aliasing of the input buffer and re-encodability are observed around each decode. One known finding (CONNECT over-read, unrepairable without editing a test) is modelled as a named deviation.",
+    "Trusted: MQTTCodec.tla Dec with the documented leniencies L1-L5; TLC; the recorder. Not exhaustive over all byte strings (generated + enumerated header space).",
+    "DESIGN.md section 5 C02")
+
 PENDING_REASON = "check not built yet in this round (planned, see DESIGN.md section 5)"
 
 
